@@ -117,10 +117,14 @@ def d4_mean(chk, repo):
     fulls = [r for r in rets if v.eq(v.ev.term(r.value, at=r), full)]
     conds_ok = 0
     for r in fulls:
-        cs = [(v.ev.term(c_, at=geom._if_stmt(v, c_)), pol) for c_, pol in v.cfg.path_condition(r)]
-        if any(pol and v.eq(ct, v.spec("direction is None")) for ct, pol in cs):
+        # two different returns: one exactly for `direction is None`, one for an explicit list of all dims (reach
+        # conditions on the CFG, whatever the nesting)
+        if reached_iff(v, r, v.spec("direction is None")):
             conds_ok |= 1
-        if any(pol and v.eq(ct, v.spec("sorted(direction) == sorted(self.mesh.region.dims)")) for ct, pol in cs):
+        elif reached_implies(v, r, v.spec("direction is not None and sorted(direction) == sorted(self.mesh.region.dims)")) and \
+                implies_reached(v, v.spec("direction is not None and isinstance(direction, (tuple, list)) and "
+                                          "len(direction) == len(set(direction)) and "
+                                          "sorted(direction) == sorted(self.mesh.region.dims)"), r):
             conds_ok |= 2
     chk.ob("field.Field.mean::all-directions", conds_ok == 3, "C06.D4",
            "mean() and mean(all dims) must both be array.mean over every spatial axis", v.f)
